@@ -354,16 +354,37 @@ func rangerPools(c *an.Ctx, rule string) {
 	}
 	c.Expect(rule, "pooled ranger types", n, 3)
 
-	// no Range() after cleanup() in the range arm
+	// the release function handed out by getRanger is called exactly once, after the last use of the ranger
 	if el := c.Fn(rule, "(*Runtime).executeList"); el != nil {
 		einfo := el.Info()
-		bad := token.NoPos
+		// role: the variables that receive getRanger's second result
+		releaseVars := map[types.Object]bool{}
+		an.InspectOwn(el, func(nd ast.Node) bool {
+			if as, ok := nd.(*ast.AssignStmt); ok && len(as.Rhs) == 1 && len(as.Lhs) == 3 {
+				if call, ok := an.Unparen(as.Rhs[0]).(*ast.CallExpr); ok && an.IsCallTo(einfo, call, "jet.getRanger") {
+					if id, ok := as.Lhs[1].(*ast.Ident); ok {
+						releaseVars[an.ObjOf(einfo, id)] = true
+					}
+				}
+			}
+			return true
+		})
+		bad, twice := token.NoPos, token.NoPos
+		nRel := 0
 		x := p.NewExplorer(el, an.Hooks{Call: func(x *an.Explorer, call *ast.CallExpr, s *an.State) {
 			name := an.CalleeName(einfo, call)
+			isRelease := false
+			if id, ok := an.Unparen(call.Fun).(*ast.Ident); ok && releaseVars[an.ObjOf(einfo, id)] {
+				isRelease = true
+			}
 			switch {
 			case name == "jet.getRanger":
 				s.Set("released", "")
-			case name == "value:cleanup":
+			case isRelease:
+				nRel++
+				if s.Get("released") != "" && !twice.IsValid() {
+					twice = call.Pos()
+				}
 				s.Set("released", "1")
 			case name == "(jet.Ranger).Range" || name == "(jet.Ranger).ProvidesIndex":
 				if s.Get("released") != "" && !bad.IsValid() {
@@ -373,8 +394,11 @@ func rangerPools(c *an.Ctx, rule string) {
 		}})
 		x.Run(nil)
 		c.States += x.Visited
+		c.Expect(rule, "calls of the ranger release function (state visits)", nRel, 1)
 		c.Check(!bad.IsValid(), rule, "(*Runtime).executeList/no-use-after-cleanup", el.Pos(), "the ranger is not used after it was returned to its pool",
-			"the range arm calls the ranger after cleanup() returned it to the pool: another execution may already be using it")
+			"the range arm calls the ranger after its release function returned it to the pool: another execution may already be using it")
+		c.Check(!twice.IsValid(), rule, "(*Runtime).executeList/release-once", el.Pos(), "the ranger is returned to its pool at most once",
+			"a path through the range arm calls the ranger's release function twice: the same object is put into the pool twice and later handed to two nested ranges at once, which then share one cursor")
 	}
 	// every sync.Pool of the package has a known reset discipline for what it recycles
 	poolDiscipline(c, rule)
@@ -398,6 +422,36 @@ func rangerPools(c *an.Ctx, rule string) {
 			return true
 		})
 		c.Check(ok, rule, "getRanger/from-pool", gr.Pos(), "built-in rangers are obtained from their pool for each range", "getRanger does not obtain the built-in ranger from its sync.Pool (a shared instance would be used by concurrent/nested ranges)")
+		// a value that implements Ranger is iterated by its own Range method whatever its kind: a built-in
+		// (pooled) ranger is taken only where the Implements(rangerType) test is known to have failed
+		var gets []ast.Node
+		if !strings.HasPrefix(rule, "C05") {
+			return // element-order clause of C05 only
+		}
+		for _, call := range p.CallsIn(gr, "(*sync.Pool).Get") {
+			gets = append(gets, call)
+		}
+		pr := p.ProbeFn(gr, gets, an.Hooks{})
+		c.States += pr.X.Visited
+		okCustom := len(gets) > 0
+		for _, g := range gets {
+			if len(pr.At[g]) == 0 {
+				okCustom = false
+			}
+			for _, st := range pr.At[g] {
+				excluded := false
+				for k, v := range st.Facts {
+					if strings.Contains(an.PlainKey(k), ".Implements(rangerType)") && !v {
+						excluded = true
+					}
+				}
+				if !excluded {
+					okCustom = false
+				}
+			}
+		}
+		c.Check(okCustom, rule, "getRanger/custom-first", gr.Pos(), "a built-in ranger is used only for values that do not implement Ranger",
+			"getRanger can hand out a built-in ranger for a value whose type implements Ranger (the Implements test does not dominate the pool lookup): a custom Ranger over a slice, map or channel type is iterated element-wise instead of through its own Range()")
 	}
 	_ = fmt.Sprint
 }
